@@ -22,6 +22,7 @@ func init() {
 			"W4 no path that wrote the final VDR report returns done == false. " +
 			"W5 every destructive callee of the per-fork sweep is preceded by the symlinked-ancestor check; W6 a map stored into Fork.filePostNodes in a loop over forks is created in that loop; W7 the symlink check reaches every ancestor (recursion on the parent, or a loop whose stat depends on the loop's node). " +
 			"W8 util.Walk opens its root with O_NOFOLLOW. " +
+			"W9 cacheParamFileMap gives up only for nil outs; W10 the chunk temp sweep tolerates a missing temp directory. " +
 			"NOT decided: equality of Count/Size with the bytes removed, completeness (no volatile file survives), merge arithmetic.",
 		Assumptions: commonAssumptions,
 	}
@@ -331,6 +332,8 @@ func runC14(c *an.Ctx) {
 	ruleW6(c)
 	ruleW7(c)
 	ruleW8(c)
+	ruleW9(c)
+	ruleW10(c)
 	// ---------------- W3 ----------------
 	ruleW3(c)
 }
